@@ -121,3 +121,6 @@ def run(db, rep, tier):
     rep.ok('F.holder', max(ncls - len(set(h[0] for h in hf)), 0))
     rep.floor('F.holder', ncls, 3)
     sweep_kernels(db, rep, tier)
+    import fixtures
+    fixtures.controls_c15(rep)
+    fixtures.controls_own(rep)
